@@ -92,6 +92,27 @@ Definition proj (cs : list nat) (j : nat) (x : list T) : list T :=
 Definition embed (rs : list nat) (i : nat) (v : list T) : list T :=
   vconst (list_sum (firstn i rs)) nzero ++ v ++ vconst (list_sum (skipn (S i) rs)) nzero.
 
+(* ---------- point-wise operators on vector fields  X^k  (X = rn(n), flat: f_1 ++ ... ++ f_k) ---------- *)
+(* sum_i w_i * g(f_i, h_i)  over the blocks of two flat fields, block size n *)
+Fixpoint pwsum (g : list T -> list T -> list T) (n : nat) (w : list T) (f h : list T) : list T :=
+  match w with
+  | [] => vconst n nzero
+  | wi :: w' => vadd (vscal wi (g (firstn n f) (firstn n h))) (pwsum g n w' (skipn n f) (skipn n h))
+  end.
+(* PointwiseInner(vecfield=vf, weighting=w):  d |-> sum_i w_i * vf_i * d_i *)
+Definition pwinner (n : nat) (w vf d : list T) : list T := pwsum vmul n w vf d.
+(* PointwiseNorm, exponent 1:  sum_i w_i |f_i| ;  exponent 2:  sqrt(sum_i w_i f_i^2) *)
+Definition pwnorm1 (n : nat) (w f : list T) : list T := pwsum (fun a _ => map nabs a) n w f f.
+Definition pwnormsq (n : nat) (w f : list T) : list T := pwsum vmul n w f f.
+Definition pwnorm2 (n : nat) (w f : list T) : list T := map (rt P) (pwnormsq n w f).
+(* f_i / N where N != 0 (entries with N == 0 are left alone, as `gi[nz] /= fac[nz]` does) *)
+Definition divnz (a nrm : T) : T := if nrm =? nzero then a else a / nrm.
+Fixpoint pwdiv (n k : nat) (f nrm : list T) : list T :=
+  match k with
+  | O => []
+  | S k' => vmap2 divnz (firstn n f) nrm ++ pwdiv n k' (skipn n f) nrm
+  end.
+
 (* ---------- leaves ---------- *)
 Inductive leaf :=
 | LScale (s : space) (c : T)               (* ScalingOperator / IdentityOperator *)
@@ -105,7 +126,9 @@ Inductive leaf :=
 | LNorm (n : nat)                          (* NormOperator(rn(n)) *)
 | LDist (v : list T)                       (* DistOperator(v) *)
 | LAbs (k : nat)                           (* user-defined nonlinear operator no. k *)
-| LAbsD (k : nat) (x : list T).            (* the linear operator its derivative(x) returns *)
+| LAbsD (k : nat) (x : list T)             (* the linear operator its derivative(x) returns *)
+| LPwNorm (n : nat) (p : Z) (w : list T)   (* PointwiseNorm(rn(n)^k, exponent p in {1,2}, weights w), k = #w *)
+| LPwInner (n : nat) (w vf : list T).      (* PointwiseInner(rn(n)^k, vf, weights w) *)
 
 Definition ldom (l : leaf) : space :=
   match l with
@@ -114,6 +137,7 @@ Definition ldom (l : leaf) : space :=
   | LInner v | LDist v => SV (length v)
   | LUf _ n | LNorm n => SV n
   | LAbs k | LAbsD k _ => adom P k
+  | LPwNorm n _ w | LPwInner n w _ => SP (repeat n (length w))
   end.
 Definition lran (l : leaf) : space :=
   match l with
@@ -123,16 +147,17 @@ Definition lran (l : leaf) : space :=
   | LInner _ | LDist _ | LNorm _ => SF
   | LUf _ n => SV n
   | LAbs k | LAbsD k _ => aran P k
+  | LPwNorm n _ _ | LPwInner n _ _ => SV n
   end.
 Definition all_zero (c : list T) : bool := forallb (fun a => a =? nzero) c.
 (* the `linear` flag handed to Operator.__init__ *)
 Definition llin (l : leaf) : bool :=
   match l with
-  | LScale _ _ | LMul _ _ | LMat _ _ | LInner _ | LZero _ _ | LAbsD _ _ => true
+  | LScale _ _ | LMul _ _ | LMat _ _ | LInner _ | LZero _ _ | LAbsD _ _ | LPwInner _ _ _ => true
   | LConst _ _ c => all_zero c              (* linear = (constant.norm() == 0) *)
   | LPow _ p => (p =? 1)%Z                  (* linear = (exponent == 1) *)
   | LUf f _ => ufunc_linear f
-  | LNorm _ | LDist _ | LAbs _ => false
+  | LNorm _ | LDist _ | LAbs _ | LPwNorm _ _ _ => false
   end.
 Definition lwt (l : leaf) : bool :=
   match l with
@@ -140,6 +165,8 @@ Definition lwt (l : leaf) : bool :=
   | LMat n rows => forallb (fun r => Nat.eqb (length r) n) rows
   | LConst _ s' c => Nat.eqb (length c) (sdim s')
   | LAbsD k x => Nat.eqb (length x) (sdim (adom P k))
+  | LPwNorm n p w => ((p =? 1)%Z || (p =? 2)%Z) && negb (Nat.eqb (length w) 0)
+  | LPwInner n w vf => Nat.eqb (length vf) (length w * n) && negb (Nat.eqb (length w) 0)
   | _ => true
   end.
 Definition leval (l : leaf) (x : list T) : list T :=
@@ -156,6 +183,8 @@ Definition leval (l : leaf) (x : list T) : list T :=
   | LDist v => [rt P (normsq (vsub x v))]
   | LAbs k => afun P k x
   | LAbsD k x0 => ader P k x0 x
+  | LPwNorm n p w => if (p =? 1)%Z then pwnorm1 n w x else pwnorm2 n w x
+  | LPwInner n w vf => pwinner n w vf x
   end.
 
 (* ---------- expression classes ---------- *)
@@ -287,12 +316,15 @@ Definition lderiv (l : leaf) (x : list T) : oexpr :=
   | LDist v => let df := vsub x v in let dist := rt P (normsq df) in
                OLeaf (LInner (map (fun a => a / dist) df))
   | LAbs k => OLeaf (LAbsD k x)
+  | LPwNorm n p w =>
+      (* inner_vf = f * |f|^(p-2) / N^(p-1):  sign(f) for p = 1,  f / N (where N != 0) for p = 2 *)
+      OLeaf (LPwInner n w (if (p =? 1)%Z then map nsign x else pwdiv n (length w) x (pwnorm2 n w x)))
   | _ => OLeaf l                      (* Operator.derivative: linear => self *)
   end.
 (* false = the call raises (OpNotImplementedError / ValueError) *)
 Definition lderiv_ok (l : leaf) (x : list T) : bool :=
   match l with
-  | LConst _ _ _ | LPow _ _ | LAbs _ => true
+  | LConst _ _ _ | LPow _ _ | LAbs _ | LPwNorm _ _ _ => true
   | LUf f _ => match ufunc_deriv f with Some _ => true | None => ufunc_linear f end
   | LNorm _ => negb (rt P (dot x x) =? nzero)
   | LDist v => negb (rt P (normsq (vsub x v)) =? nzero)
@@ -353,3 +385,4 @@ Arguments ODiagonal {T}. Arguments OPSO {T}.
 Arguments LScale {T}. Arguments LMul {T}. Arguments LMat {T}. Arguments LInner {T}.
 Arguments LZero {T}. Arguments LConst {T}. Arguments LPow {T}. Arguments LUf {T}.
 Arguments LNorm {T}. Arguments LDist {T}. Arguments LAbs {T}. Arguments LAbsD {T}.
+Arguments LPwNorm {T}. Arguments LPwInner {T}.
